@@ -1072,6 +1072,19 @@ def replay_arg(viol):
               ("r(arg(2, \"abcdefgh\", \"bcdefgx\"), x, R), showq(R)", "no"),
               ("r(arg(1, \"abc\", b), x, R), showq(R)", "no"),
               ("r((S = \"abcdefg\", arg(2, S, T1), arg(2, T1, T2), arg(2, T2, T)), T, R), showq(R)", "yes([d,e,f,g])")]
+    # a multi-byte LAST character at every offset of its 8-byte cell (the rest is what follows the string)
+    for pre in ("", "a", "ab", "abc", "abcd", "abcde", "abcdef", "abcdefg", "abcdefgh"):
+        for ch in ("\u00e9", "\u20ac", "\U0001F600"):
+            cases.append(("S = \"%s%s\", r(walk(S, L), L, R), showq(R)" % (pre, ch), "yes(%d)" % (len(pre) + 1)))
+    cases += [("r(functor(_, 1, 2), x, R), showq(R)", "err(type_error(atom,1))"),
+              ("r(functor(_, 1.5, 1), x, R), showq(R)", "err(type_error(atom,1.5))"),
+              ("B is 2^70, r(functor(_, B, 3), x, R), showq(R)", "err(type_error(atom,1180591620717411303424))"),
+              ("B is 2^70, r(functor(T, B, 0), T, R), showq(R)", "yes(1180591620717411303424)"),
+              ("N is 2^60-2^60+1, r(functor(_, 7, N), x, R), showq(R)", "err(type_error(atom,7))"),
+              ("r(functor(_, \"ab\", 1), x, R), showq(R)", "err(type_error(atomic,[a,b]))"),
+              ("r(functor(_, [a], 0), x, R), showq(R)", "err(type_error(atomic,[a]))")]
+    prog += ("walk(S, L) :- walk(S, 0, L).\n"
+             "walk(S, N0, L) :- arg(2, S, T), N1 is N0 + 1, ( T == [] -> L = N1 ; N1 < 40, T = [_|_], walk(T, N1, L) ).\n")
     # the block functor/3 fabricates: distinct unbound arguments, at the boundary arities, usable afterwards
     cases += [("r(functor(T, foo, 1), T, R), showv(R)", "yes(foo(A))"),
               ("r(functor(T, '.', 3), T, R), showv(R)", "yes('.'(A,B,C))"),
